@@ -61,6 +61,7 @@ Reset ==
   /\ ops' = 0 /\ deps' = {}
   /\ run' = "newStream" /\ rcv' = "off" /\ snap' = {} /\ batchS' = {} /\ batchU' = {}
   /\ up' = FALSE /\ silent' = FALSE /\ srv' = {} /\ fails' = 0 /\ amb' = {}
+  /\ why' = "none" /\ reach' = TRUE
   /\ inCall' = FALSE /\ nsSeen' = FALSE
 
 Event(e) ==
@@ -72,7 +73,7 @@ Event(e) ==
   \/ /\ e.ev = "nsReq" /\ ~nsSeen /\ run = "newStream" /\ nsSeen' = TRUE
      /\ UNCHANGED <<vars, inCall, verdicts>>
   \/ /\ e.ev = "nsOK" /\ nsSeen /\ NewStreamOK /\ nsSeen' = FALSE /\ UNCHANGED <<inCall, verdicts>>
-  \/ /\ e.ev = "nsFail" /\ nsSeen /\ NewStreamFail /\ nsSeen' = FALSE /\ UNCHANGED <<inCall, verdicts>>
+  \/ /\ e.ev = "nsFail" /\ nsSeen /\ (\E k \in Kinds : NewStreamFail(k)) /\ nsSeen' = FALSE /\ UNCHANGED <<inCall, verdicts>>
   \/ /\ e.ev = "sendReq"
      /\ \/ run = "resubSend" /\ snap = ToSet(e.sub) /\ e.unsub = <<>>
         \/ run = "sendSend" /\ batchS = ToSet(e.sub) /\ batchU = ToSet(e.unsub)
@@ -89,7 +90,7 @@ Event(e) ==
      /\ \/ ResubSend /\ snap = ToSet(e.sub) /\ e.unsub = <<>>
         \/ SenderSend /\ batchS = ToSet(e.sub) /\ batchU = ToSet(e.unsub)
      /\ UNCHANGED <<inCall, nsSeen, verdicts>>
-  \/ /\ e.ev = "fail" /\ StreamFail /\ UNCHANGED <<inCall, nsSeen, verdicts>>
+  \/ /\ e.ev = "fail" /\ (\E k \in Kinds : StreamFail(k)) /\ UNCHANGED <<inCall, nsSeen, verdicts>>
   \/ /\ e.ev = "silent" /\ SilentFail /\ UNCHANGED <<inCall, nsSeen, verdicts>>
   \/ /\ e.ev = "detect" /\ KeepaliveDetect /\ UNCHANGED <<inCall, nsSeen, verdicts>>
   \/ /\ e.ev = "settled" /\ Quiescent /\ ~inCall
